@@ -20,3 +20,4 @@ def run(ck):
     region.r7_13_or_trick_exactness(ck, P)
     region.r7_14_running_extremes_independent(ck, P)
     deadcmp.r_range_test_after_narrowing(ck, P, 'C07-R15', floor=40)
+    region.r6_12_clamped_boxes_revalidated(ck, P, 'C07-R16')
